@@ -555,7 +555,7 @@ def direct_specs(thorough: bool):
             for res in (1, -1, 2):
                 specs.append(('clause', cl, res))
     for k in range(0, 6 if thorough else 5):
-        for rest in ((), (1,), (1, 2), (-1,), (-1, 1, 2)):
+        for rest in ((), (1,), (1, 2), (-1,), (-1, 1, 2), (0,), (0, 0), (0, 1)):
             specs.append(('dups', k, rest))
     return specs
 
